@@ -597,6 +597,17 @@ impl Server {
         let mut connections_with_writes = Vec::new();
         let mut did_work = false;
         
+        // A blocked connection is not read below, so its hang-up would go unnoticed and the next element
+        // pushed to its key would be written into a dead socket: probe it, and let cleanup_connections
+        // drop it (and its registrations) when the peer is gone
+        for id in self.connections.all_connection_ids() {
+            self.connections.with_connection(id, |conn| {
+                if matches!(conn.state, ConnectionState::Blocked(_)) && conn.peer_closed() {
+                    conn.state = ConnectionState::Closing;
+                }
+            });
+        }
+        
         // Get all connection IDs, filtering out blocked connections for performance
         let conn_ids: Vec<u64> = self.connections.all_connection_ids()
             .into_iter()
